@@ -2150,7 +2150,7 @@ def run_r5(repo: Repo, res: Result, order: "Order | None" = None) -> None:
     tmp, frepo = _fixture_repo("selection.py")
     try:
         flagged = {s["f"].name for s in selections(frepo, None, frepo.all_functions())[1:]}
-        want = {"bad_first_physical_location_wins", "bad_case_insensitive_first_wins", "bad_parents_retained_so_far", "bad_parents_retained_so_far_through_helper", "bad_first_three", "bad_listing_prefix_filter", "bad_flag_loop_over_retained", "bad_test_and_set_helper_decides"}
+        want = {"bad_first_physical_location_wins", "bad_case_insensitive_first_wins", "bad_parents_retained_so_far", "bad_parents_retained_so_far_through_helper", "bad_first_three", "bad_listing_prefix_filter", "bad_flag_loop_over_retained", "bad_test_and_set_helper_decides", "bad_links_established_by_parent_only", "bad_compiled_pattern_memo_keyed_loosely"}
         if flagged != want:
             raise AnalysisError(f"C15.R5 fixture: order-dependent selections not recognised exactly (flagged {sorted(flagged)}, want {sorted(want)})")
         res.add("C15.R5", "fixture::engine/rules/c15_fixtures/selection.py", True, f"positive fixture recognised: {sorted(flagged)}; de-duplication on the element, sorted input, tests against the complete input, grouping and closure idioms accepted", nontrivial=False)
